@@ -83,7 +83,7 @@ theorem RawP.nonneg {reverse : Bool} {base es : List (RawEdit α)} {px py : Int}
 /-- one more element of a slice -/
 theorem take_succ_drop (s : List α) (i len : Nat) (v : α) (h : s[i + len]? = some v) :
     (s.drop i).take (len + 1) = (s.drop i).take len ++ [v] := by
-  rw [List.take_succ]
+  rw [List.take_add_one]
   congr 1
   rw [List.getElem?_drop, h]
   rfl
